@@ -4,6 +4,7 @@
 // rational arithmetic from the network specification only.
 #include "netgen.h"
 #include <iostream>
+#include <gnu_gama/local/language.h>
 
 using namespace N;
 static std::string g_prop;
@@ -104,12 +105,322 @@ static void compare_with_oracle(Built& b, const std::string& tag, bool cofactors
 }
 
 // ---------------------------------------------------------------------------------------------------
+// the steps of gama-local's main() after parsing; results collected by name
+struct Res {
+  bool adjusted = false; std::string why;
+  std::map<std::string, Real> adj;              // "id.T" -> adjusted coordinate in metres
+  std::map<int, Real> resid, stdev_obs, wcoef, qbb;   // by index in the input observation order
+  std::map<std::string, Real> qxx;              // "id.T|id.T"
+  Real vpv, m0; int dof = 0, defect = 0, nunk = 0, nobs = 0;
+  std::vector<std::string> removed; std::vector<int> rejected;
+};
+
+static std::string uname(LocalNetwork* IS, int i) { return IS->unknown_pointid(i).str() + "." + IS->unknown_type(i); }
+
+static Res run_flow(Built& b, bool want_cof) {
+  Res r; LocalNetwork* IS = b.net.IS.get();
+  try {
+    if (IS->points_count() == 0 || IS->unknowns_count() == 0) { r.why = "no network points defined"; return r; }
+    if (IS->huge_abs_terms()) IS->remove_huge_abs_terms();
+    // the decision part of GeneralParameters() (results/text/general_parameters.h): the printing part, which
+    // searches extreme standardised residuals with data-dependent comparisons, is not executed here
+    bool can = true;
+    {
+      int d = IS->null_space();
+      try {
+        if (IS->min_n() < d) throw MatVecException(GNU_gama::Exception::BadRegularization, "not enough constrained points");
+        IS->trans_VWV();
+      } catch (const MatVecException& vs) { if (vs.error() != GNU_gama::Exception::BadRegularization) throw; can = false; }
+    }
+    { auto c = IS->removed_code.begin(); for (auto i = IS->removed_points.begin(); i != IS->removed_points.end(); ++i, ++c) r.removed.push_back(i->str() + ":" + std::to_string((int)*c)); }
+    for (Observation* o : IS->rejected_observations()) for (size_t k = 0; k < b.obs.size(); k++) if (b.obs[k] == o) r.rejected.push_back((int)k);
+    if (!can) { r.why = "network can not be adjusted"; return r; }
+    IS->refine_adjustment();
+    const GNU_gama::local::Vec& x = IS->solve();
+    r.nunk = IS->unknowns_count(); r.nobs = IS->observations_count();
+    for (int i = 1; i <= r.nunk; i++) {
+      char t = IS->unknown_type(i); const LocalPoint& p = IS->PD[IS->unknown_pointid(i)];
+      Real base = t == 'X' ? p.x() : t == 'Y' ? p.y() : t == 'Z' ? p.z() : sx::rat(0);
+      r.adj[uname(IS, i)] = base + x(i) / sx::rat(1000);
+    }
+    const GNU_gama::local::Vec& v = IS->residuals();
+    for (int i = 1; i <= r.nobs; i++) {
+      Observation* o = IS->ptr_obs(i); int k = -1; for (size_t q = 0; q < b.obs.size(); q++) if (b.obs[q] == o) k = (int)q;
+      r.resid[k] = v(i);
+      if (want_cof) { r.stdev_obs[k] = IS->stdev_obs(i); r.wcoef[k] = IS->wcoef_res(i); r.qbb[k] = IS->qbb(i, i); }
+    }
+    r.vpv = IS->trans_VWV(); r.dof = IS->degrees_of_freedom(); r.defect = IS->null_space(); r.m0 = IS->m_0();
+    if (want_cof) for (int i = 1; i <= r.nunk; i++) for (int j = 1; j <= r.nunk; j++) r.qxx[uname(IS, i) + "|" + uname(IS, j)] = IS->qxx(i, j);
+    r.adjusted = true;
+  } catch (const GNU_gama::local::Exception& e) { r.why = std::string("exception: ") + e.what(); }
+    catch (const GNU_gama::Exception::matvec& e) { r.why = std::string("matvec exception: ") + e.what(); }
+  return r;
+}
+
+static void same_results(const Res& a, const Res& b, const std::string& tag, bool coords, bool cof, const std::map<int,int>* obsmap = nullptr) {
+  sx::check_true(a.adjusted == b.adjusted, tag + " both adjusted or both refused", a.why + " / " + b.why);
+  if (!a.adjusted || !b.adjusted) return;
+  sx::check_true(a.dof == b.dof, tag + " degrees of freedom", ""); sx::check_true(a.defect == b.defect, tag + " defect", "");
+  sx::check_true(a.nobs == b.nobs, tag + " number of observations", "");
+  sx::check_eq(a.vpv, b.vpv, tag + " sum of squares");
+  for (auto& kv : a.resid) { int k2 = obsmap ? obsmap->at(kv.first) : kv.first; auto it = b.resid.find(k2);
+    sx::check_true(it != b.resid.end(), tag + " same observations take part", std::to_string(kv.first)); if (it == b.resid.end()) continue;
+    sx::check_eq(kv.second, it->second, tag + " residual of observation " + std::to_string(kv.first + 1));
+    if (cof && a.qbb.count(kv.first) && b.qbb.count(k2)) { sx::check_eq(a.qbb.at(kv.first), b.qbb.at(k2), tag + " q_bb of observation " + std::to_string(kv.first + 1));
+      sx::check_eq(a.stdev_obs.at(kv.first), b.stdev_obs.at(k2), tag + " stdev of adjusted observation " + std::to_string(kv.first + 1)); } }
+  if (coords) {
+    sx::check_true(a.adj.size() == b.adj.size(), tag + " same unknowns", "");
+    for (auto& kv : a.adj) { auto it = b.adj.find(kv.first); if (it == b.adj.end()) { sx::fail(tag + " unknown missing in the other run", kv.first); continue; } sx::check_eq(kv.second, it->second, tag + " adjusted " + kv.first); }
+    if (cof) for (auto& kv : a.qxx) { auto it = b.qxx.find(kv.first); if (it != b.qxx.end()) sx::check_eq(kv.second, it->second, tag + " q_xx " + kv.first); }
+  }
+  sx::check_true(a.removed == b.removed, tag + " same removed points", ""); sx::check_true(a.rejected == b.rejected, tag + " same rejected observations", "");
+}
+
+// ---------------------------------------------------------------------------------------------------
 static void case_c01(const Spec& spec, int alg) {
   Built b;
   if (!build(b, spec, ALGS[alg], Q(1, 10))) return;
   make_oracle(b);
   if (!b.orc.resolves) { sx::note("skip", "datum does not resolve the defect"); return; }
   compare_with_oracle(b, ALGS[alg], on("C03"));
+  if (on("C03")) {
+    // homogenised projector: q_bb(i,i) against  l_i' A Q A' l_i  of the oracle (uncorrelated: p_i (AQA')_ii)
+    LocalNetwork* IS = b.net.IS.get(); Oracle& o = b.orc;
+    QMat AQAt = qla::mul(qla::mul(o.A, o.Qx), qla::trans(o.A));
+    Real tr = sx::rat(0);
+    for (int i = 1; i <= IS->observations_count(); i++) tr = tr + IS->qbb(i, i);
+    sx::check_eq(tr, sx::rat((int)o.unk.size() - o.defect), std::string(ALGS[alg]) + " redundancy: trace of projector = n - defect");
+    bool diagonalP = true; for (int i = 0; i < o.P.r; i++) for (int j = 0; j < o.P.c; j++) if (i != j && o.P(i, j) != 0) diagonalP = false;
+    if (diagonalP) for (int i = 1; i <= IS->observations_count(); i++)
+      sx::check_eq(IS->qbb(i, i), sx::constant(o.P(i - 1, i - 1) * AQAt(i - 1, i - 1)), std::string(ALGS[alg]) + " q_bb(i,i) = p_i (A Q A')_ii, i=" + std::to_string(i));
+  }
+}
+
+// C02 at network level: all algorithms in one exploration on shared symbols
+static void case_c02(const Spec& spec) {
+  std::vector<Res> rs;
+  for (int alg = 0; alg < 3; alg++) { Built b; if (!build(b, spec, ALGS[alg], Q(1, 10))) return; rs.push_back(run_flow(b, true)); }
+  for (int alg = 1; alg < 3; alg++) same_results(rs[alg], rs[0], std::string(ALGS[alg]) + " vs envelope", true, true);
+  sx::reached("net-c02");
+}
+
+// C06: observations computed without error from true coordinates; approximate coordinates perturbed / omitted
+static void case_c06(const Spec& spec0, int alg, int mode) {
+  // mode 0: approximate coordinates = true; 1: perturbed by symbolic offsets; 2: omitted for non-fixed points (approximate-coordinate solver runs)
+  Spec spec = spec0;
+  if (mode == 2) for (auto& p : spec.pts) { bool free_only = p.fix.empty(); for (char ch : p.adj) if (isupper((unsigned char)ch)) free_only = false; if (free_only) { p.give_xy = false; p.give_z = false; } }
+  Built b; if (!build(b, spec, ALGS[alg], Q(0), false)) return;
+  LocalNetwork* IS = b.net.IS.get();
+  if (mode == 1) {
+    int k = 0;
+    for (auto& p : spec.pts) if (p.fix.empty()) {
+      LocalPoint& lp = IS->PD[PointID(p.id)];
+      if (p.has_xy) { Real dx = sx::input("dx" + std::to_string(k)), dy = sx::input("dy" + std::to_string(k)); sx::assume_range(dx, Q(-1, 2), Q(1, 2)); sx::assume_range(dy, Q(-1, 2), Q(1, 2)); lp.set_xy(lp.x() + dx, lp.y() + dy); }
+      if (p.has_z) { Real dz = sx::input("dz" + std::to_string(k)); sx::assume_range(dz, Q(-1, 2), Q(1, 2)); lp.set_z(lp.z() + dz); }
+      k++;
+    }
+  }
+  if (mode == 2) { Acord2 a(IS->PD, IS->OD); a.execute(); refine_obsdh_reductions(IS); }
+  Res r = run_flow(b, false);
+  std::string tag = std::string(ALGS[alg]) + " mode" + std::to_string(mode);
+  sx::check_true(r.adjusted, tag + " consistent network is adjusted", r.why);
+  if (!r.adjusted) return;
+  sx::check_true(r.removed.empty(), tag + " no point removed", r.removed.empty() ? "" : r.removed[0]);
+  sx::check_true(r.rejected.empty(), tag + " no observation rejected", "");
+  for (auto& kv : r.resid) sx::check_zero(kv.second, tag + " residual of observation " + std::to_string(kv.first + 1));
+  // adjusted coordinates equal the generating ones (free networks: up to the datum shift, checked through differences)
+  bool free_net = r.defect > 0;
+  std::string ref_id; Real ref_d[3];
+  for (auto& kv : r.adj) {
+    std::string id = kv.first.substr(0, kv.first.size() - 2); char t = kv.first.back(); const Pt* p = spec.pt(id);
+    Q truth = t == 'X' ? p->x : t == 'Y' ? p->y : p->z;
+    if (!free_net) sx::check_eq(kv.second, sx::constant(truth), tag + " adjusted " + kv.first + " equals the generating coordinate");
+  }
+  if (free_net) {
+    std::map<char, std::pair<Real, bool>> shift;
+    for (auto& kv : r.adj) { std::string id = kv.first.substr(0, kv.first.size() - 2); char t = kv.first.back(); const Pt* p = spec.pt(id);
+      Q truth = t == 'X' ? p->x : t == 'Y' ? p->y : p->z; Real d = kv.second - sx::constant(truth);
+      if (!shift.count(t)) shift[t] = {d, true}; else sx::check_eq(d, shift[t].first, tag + " adjusted " + kv.first + " differs from the generating one by the common datum shift"); }
+  }
+  sx::check_zero(r.vpv, tag + " sum of squares");
+  sx::reached("net-c06");
+}
+
+// C07: equivalent descriptions.  variant 1: translation by a symbolic vector; 2: reversed order of points/clusters/observations;
+// 3: renamed points (reverses the id order); 4: ends of height differences / vectors swapped
+static Spec transform(const Spec& s, int variant, std::map<int,int>& obsmap) {
+  Spec t = s; obsmap.clear();
+  size_t nobs = 0; for (auto& c : s.cl) nobs += c.obs.size();
+  for (size_t k = 0; k < nobs; k++) obsmap[(int)k] = (int)k;
+  if (variant == 2) {
+    std::reverse(t.pts.begin(), t.pts.end());
+    // clusters reversed; inside a cluster the order is kept when it carries a covariance matrix
+    std::vector<int> start; int k = 0; for (auto& c : s.cl) { start.push_back(k); k += (int)c.obs.size(); }
+    std::reverse(t.cl.begin(), t.cl.end());
+    int pos = 0;
+    for (int ci = (int)s.cl.size() - 1; ci >= 0; ci--) { for (size_t i = 0; i < s.cl[ci].obs.size(); i++) obsmap[start[ci] + (int)i] = pos++; }
+  } else if (variant == 3) {
+    std::map<std::string, std::string> ren; int n = (int)s.pts.size();
+    for (int i = 0; i < n; i++) ren[s.pts[i].id] = std::string("p") + (char)('a' + (n - 1 - i)) + "\xc3\xa9";   // non-ASCII, reversed order
+    for (auto& p : t.pts) p.id = ren[p.id];
+    for (auto& c : t.cl) for (auto& o : c.obs) { if (!o.from.empty()) o.from = ren[o.from]; if (!o.to.empty()) o.to = ren[o.to]; }
+  } else if (variant == 4) {
+    for (auto& c : t.cl) if (c.kind == Cluster::HD || c.kind == Cluster::VEC) for (auto& o : c.obs) { std::swap(o.from, o.to); o.val = -o.val; }
+  }
+  return t;
+}
+static void case_c07(const Spec& spec, int alg, int variant) {
+  std::map<int,int> obsmap; Spec spec2 = transform(spec, variant, obsmap);
+  Built a, b;
+  if (!build(a, spec, ALGS[alg], Q(1, 10))) return;
+  // second network: same symbolic errors on corresponding observations
+  b.spec = spec2; if (!b.net.parse(gkf(spec2))) { sx::fail("transformed input rejected", b.net.parse_error); return; }
+  b.obs = b.net.all_obs(); b.val.assign(b.obs.size(), sx::rat(0)); b.active.assign(b.obs.size(), true);
+  for (auto& kv : obsmap) { Real v = a.val[kv.first]; if (variant == 4) { OType t = otype(a.obs[kv.first]); if (t == HDIFF || t == XDIFF || t == YDIFF || t == ZDIFF) v = -v; } b.val[kv.second] = v; b.obs[kv.second]->set_value(v); }
+  b.net.prepare(ALGS[alg], false);
+  Real tx = sx::rat(0), ty = sx::rat(0), tz = sx::rat(0);
+  if (variant == 1) {
+    tx = sx::input("tx"); ty = sx::input("ty"); tz = sx::input("tz");
+    for (auto it = b.net.IS->PD.begin(); it != b.net.IS->PD.end(); ++it) { LocalPoint& p = it->second; if (p.test_xy()) p.set_xy(p.x() + tx, p.y() + ty); if (p.test_z()) p.set_z(p.z() + tz); }
+    size_t k = 0; for (auto& c : spec2.cl) for (auto& o : c.obs) { if (o.t == CX) { b.val[k] = b.val[k] + tx; b.obs[k]->set_value(b.val[k]); } if (o.t == CY) { b.val[k] = b.val[k] + ty; b.obs[k]->set_value(b.val[k]); } if (o.t == CZ) { b.val[k] = b.val[k] + tz; b.obs[k]->set_value(b.val[k]); } k++; }
+  }
+  Res ra = run_flow(a, true), rb = run_flow(b, true);
+  std::string tag = std::string(ALGS[alg]) + " variant" + std::to_string(variant);
+  sx::check_true(ra.adjusted && rb.adjusted, tag + " both adjusted", ra.why + " / " + rb.why);
+  if (!ra.adjusted || !rb.adjusted) return;
+  // residuals (sign flips with swapped ends), statistics
+  std::map<int,int> inv; for (auto& kv : obsmap) inv[kv.first] = kv.second;
+  sx::check_true(ra.dof == rb.dof && ra.defect == rb.defect && ra.nobs == rb.nobs, tag + " counts", "");
+  sx::check_eq(ra.vpv, rb.vpv, tag + " sum of squares");
+  for (auto& kv : ra.resid) { auto it = rb.resid.find(inv[kv.first]); if (it == rb.resid.end()) { sx::fail(tag + " observation missing", ""); continue; }
+    Real v2 = it->second; if (variant == 4) { OType t = otype(a.obs[kv.first]); if (t == HDIFF || t == XDIFF || t == YDIFF || t == ZDIFF) v2 = -v2; }
+    sx::check_eq(kv.second, v2, tag + " residual " + std::to_string(kv.first + 1));
+    sx::check_eq(ra.stdev_obs.at(kv.first), rb.stdev_obs.at(it->first), tag + " stdev of adjusted observation " + std::to_string(kv.first + 1)); }
+  // coordinates
+  std::map<std::string, std::string> ren; for (size_t i = 0; i < spec.pts.size(); i++) { std::string id2 = spec.pts[i].id; if (variant == 3) { int n = (int)spec.pts.size(); id2 = std::string("p") + (char)('a' + (n - 1 - (int)i)) + "\xc3\xa9"; } ren[spec.pts[i].id] = id2; }
+  for (auto& kv : ra.adj) { std::string id = kv.first.substr(0, kv.first.size() - 2); char t = kv.first.back(); auto it = rb.adj.find(ren[id] + "." + t);
+    if (it == rb.adj.end()) { sx::fail(tag + " unknown missing", kv.first); continue; }
+    Real shift = t == 'X' ? tx : t == 'Y' ? ty : tz; sx::check_eq(kv.second + shift, it->second, tag + " adjusted " + kv.first); }
+  for (auto& kv : ra.qxx) { size_t bar = kv.first.find('|'); std::string u1 = kv.first.substr(0, bar), u2 = kv.first.substr(bar + 1);
+    auto nm = [&](const std::string& u) { return ren[u.substr(0, u.size() - 2)] + u.substr(u.size() - 2); };
+    auto it = rb.qxx.find(nm(u1) + "|" + nm(u2)); if (it != rb.qxx.end()) sx::check_eq(kv.second, it->second, tag + " q_xx " + kv.first); }
+  sx::reached("net-c07");
+}
+
+// C08: datum choice.  The same free network with different sets of constrained points.
+static void case_c08(const Spec& spec, int alg, const std::vector<std::string>& statuses) {
+  std::vector<Res> rs; std::vector<Spec> specs;
+  for (auto& st : statuses) {
+    Spec s = spec; for (size_t i = 0; i < s.pts.size(); i++) { std::string& adj = s.pts[i].adj; std::string low; for (char ch : adj) low += (char)tolower(ch); std::string up; for (char ch : adj) up += (char)toupper(ch); adj = st[i] == 'c' ? up : low; }
+    Built b; if (!build(b, s, ALGS[alg], Q(1, 10))) return;
+    make_oracle(b);
+    if (!b.orc.resolves) { sx::note("skip", "constraint set does not resolve the defect: " + st); return; }
+    Res r = run_flow(b, true);
+    std::string tag = std::string(ALGS[alg]) + " datum " + st;
+    sx::check_true(r.adjusted, tag + " adjusted", r.why); if (!r.adjusted) return;
+    // within the run: corrections of constrained coordinates orthogonal to the datum transformations and the solution is the oracle's
+    LocalNetwork* IS = b.net.IS.get(); const GNU_gama::local::Vec& x = IS->solve();
+    for (int k = 0; k < b.orc.defect; k++) { Real t = sx::rat(0);
+      for (int i = 1; i <= IS->unknowns_count(); i++) { int c = b.orc.col(IS->unknown_pointid(i).str(), IS->unknown_type(i)); if (c < 0) continue; if (std::find(b.S.begin(), b.S.end(), c) != b.S.end()) t = t + sx::constant(b.orc.G(c, k)) * x(i); }
+      sx::check_zero(t, tag + " corrections of constrained coordinates orthogonal to datum transformation " + std::to_string(k + 1)); }
+    for (int i = 1; i <= IS->unknowns_count(); i++) { int c = b.orc.col(IS->unknown_pointid(i).str(), IS->unknown_type(i)); if (c >= 0) sx::check_eq(x(i), b.orc.x[c], tag + " correction " + uname(IS, i) + " is the constrained minimum"); }
+    rs.push_back(r); specs.push_back(s);
+  }
+  for (size_t i = 1; i < rs.size(); i++) {
+    std::string tag = std::string(ALGS[alg]) + " datum " + statuses[i] + " vs " + statuses[0];
+    same_results(rs[i], rs[0], tag, false, true);
+    // inter-point coordinate differences
+    for (auto& a : rs[0].adj) for (auto& c : rs[0].adj) { if (a.first >= c.first || a.first.back() != c.first.back()) continue;
+      if (!rs[i].adj.count(a.first) || !rs[i].adj.count(c.first)) continue;
+      sx::check_eq(a.second - c.second, rs[i].adj.at(a.first) - rs[i].adj.at(c.first), tag + " difference " + a.first + " - " + c.first); }
+  }
+  sx::reached("net-c08");
+}
+
+// C10: (1) diagonal cov-mat == per-observation stdev ; (2) passive observations of a correlated cluster == input with them deleted
+static void case_c10_diag(const Spec& spec, int alg) {
+  Spec s2 = spec; for (auto& c : s2.cl) if (c.kind == Cluster::HD && !c.has_cov) { c.has_cov = true; c.band = 0; }
+  Built a, b; if (!build(a, spec, ALGS[alg], Q(1, 10))) return;
+  b.spec = s2; if (!b.net.parse(gkf(s2))) { sx::fail("input with diagonal cov-mat rejected", b.net.parse_error); return; }
+  b.obs = b.net.all_obs(); b.val = a.val; b.active.assign(b.obs.size(), true); for (size_t k = 0; k < b.obs.size(); k++) b.obs[k]->set_value(b.val[k]);
+  b.net.prepare(ALGS[alg], false);
+  Res ra = run_flow(a, true), rb = run_flow(b, true);
+  same_results(ra, rb, std::string(ALGS[alg]) + " stdev vs diagonal cov-mat", true, true);
+  sx::reached("net-c10");
+}
+static void case_c10_passive(const Spec& spec, int alg, int cluster, unsigned mask) {
+  // observations of `cluster` whose bit is set in mask are made passive
+  Built a; if (!build(a, spec, ALGS[alg], Q(1, 10))) return;
+  size_t start = 0; for (int c = 0; c < cluster; c++) start += spec.cl[c].obs.size();
+  size_t n = spec.cl[cluster].obs.size();
+  for (size_t i = 0; i < n; i++) if (mask & (1u << i)) { a.obs[start + i]->set_passive(); a.active[start + i] = false; }
+  a.net.IS->update_observations();
+  make_oracle(a);
+  std::string tag = std::string(ALGS[alg]) + " passive mask " + std::to_string(mask);
+  if (!a.orc.resolves || a.orc.A.r == 0) { sx::note("skip", "reduced network not determined"); return; }
+  // oracle uses the sub-matrix of the active observations: results must equal it
+  LocalNetwork* IS = a.net.IS.get();
+  try {
+    const GNU_gama::local::Vec& x = IS->solve();
+    int nu = IS->unknowns_count();
+    if (nu != (int)a.orc.unk.size()) { sx::note("skip", "a point lost all its observations"); return; }
+    for (int i = 1; i <= nu; i++) { int c = a.orc.col(IS->unknown_pointid(i).str(), IS->unknown_type(i)); sx::check_true(c >= 0, tag + " unknown expected", ""); if (c >= 0) sx::check_eq(x(i), a.orc.x[c], tag + " correction " + uname(IS, i)); }
+    const GNU_gama::local::Vec& v = IS->residuals();
+    sx::check_true(IS->observations_count() == a.orc.A.r, tag + " number of active observations", "");
+    if (IS->observations_count() == a.orc.A.r) for (int i = 1; i <= IS->observations_count(); i++) sx::check_eq(v(i), a.orc.r[i - 1], tag + " residual " + std::to_string(i));
+    sx::check_eq(IS->trans_VWV(), a.orc.vpv, tag + " sum of squares uses the sub-matrix of the covariance");
+  } catch (const GNU_gama::Exception::matvec& e) { sx::fail(tag + " unexpected exception", e.what()); }
+  sx::reached("net-c10p");
+}
+// malformed covariance matrices are rejected by the parser
+static void case_c10_reject(int kind) {
+  qla::Rng rng(7); Spec s = levelling("rej", 4, {{1,2},{2,3},{3,4},{4,1}}, "faaa", rng, 2);
+  std::string text = gkf(s);
+  std::string bad = text; size_t p = bad.find("<cov-mat dim=\"4\"");
+  if (kind == 0) bad.replace(p, 16, "<cov-mat dim=\"3\"");                       // dimension mismatch
+  else if (kind == 1) { size_t q = bad.find('\n', p) + 1; size_t e = bad.find(' ', q); bad.replace(q, e - q, "-1"); }   // negative variance
+  else if (kind == 2) { size_t q = bad.find('\n', p) + 1; size_t e = bad.find(' ', q); bad.replace(q, e - q, "0"); }    // zero variance
+  else if (kind == 3) { size_t q = bad.find('\n', p) + 1; size_t e = bad.find(' ', q); size_t e2 = bad.find(' ', e + 1); bad.replace(e + 1, e2 - e - 1, "1000"); } // indefinite: huge covariance
+  Net n; bool ok = n.parse(bad);
+  if (ok) {
+    // not rejected at parse time: every algorithm must then refuse it with a diagnostic rather than adjust
+    for (int alg = 0; alg < 3; alg++) { Net m; m.parse(bad); m.prepare(ALGS[alg], false); bool threw = false;
+      try { m.IS->solve(); } catch (const GNU_gama::local::Exception&) { threw = true; } catch (const GNU_gama::Exception::matvec&) { threw = true; }
+      sx::check_true(threw, std::string(ALGS[alg]) + " malformed covariance matrix kind " + std::to_string(kind) + " is rejected", "accepted by the parser and adjusted"); }
+  }
+  sx::reached("net-c10r");
+}
+
+// C14: an observation is excluded for a gross absolute term exactly when it exceeds tol-abs, and then the results equal deletion
+static void case_c14(const Spec& spec, int alg, int target) {
+  Built b; if (!build(b, spec, ALGS[alg], Q(1, 10))) return;
+  // the targeted observation gets an unbounded symbolic error
+  Real g = sx::input("gross"); b.val[target] = b.val[target] - sx::input("e" + std::to_string(target + 1)) + g; b.obs[target]->set_value(b.val[target]);
+  LocalNetwork* IS = b.net.IS.get();
+  Res r = run_flow(b, false);
+  std::string tag = std::string(ALGS[alg]) + " gross error in observation " + std::to_string(target + 1);
+  bool rejected = std::find(r.rejected.begin(), r.rejected.end(), target) != r.rejected.end();
+  Real tol = sx::constant(spec.tol_abs);
+  Real absterm = fabs(g * sx::rat(1000));           // linear types: |observed - computed| in mm; computed from the generating coordinates
+  if (rejected) { sx::check_lt(tol, absterm, tag + " rejected only if |abs.term| > tol-abs"); b.active[target] = false; }
+  else sx::check_le(absterm, tol, tag + " kept only if |abs.term| <= tol-abs");
+  sx::check_true(r.adjusted, tag + " network adjusted", r.why); if (!r.adjusted) return;
+  make_oracle(b);
+  if (!b.orc.resolves) return;
+  if ((int)b.orc.unk.size() != r.nunk) { sx::note("skip", "a point lost its observations"); return; }
+  for (auto& kv : r.resid) { int row = 0; for (int k = 0; k < kv.first; k++) if (b.active[k]) row++; sx::check_eq(kv.second, b.orc.r[row], tag + " residual " + std::to_string(kv.first + 1) + " equals the adjustment without the rejected observation"); }
+  sx::check_eq(r.vpv, b.orc.vpv, tag + " sum of squares"); sx::check_true(r.dof == b.orc.dof, tag + " degrees of freedom", "");
+  sx::reached(rejected ? "net-c14-rejected" : "net-c14-kept");
+}
+
+// C20: ill-posed datum / structure: same diagnosis for every algorithm
+static void case_c20(const Spec& spec) {
+  std::vector<Res> rs;
+  for (int alg = 0; alg < 3; alg++) { Built b; if (!build(b, spec, ALGS[alg], Q(1, 10))) return; rs.push_back(run_flow(b, true)); }
+  for (int alg = 1; alg < 3; alg++) same_results(rs[alg], rs[0], std::string(ALGS[alg]) + " vs envelope (ill-posed)", true, true);
+  for (int alg = 0; alg < 3; alg++) { std::string l; for (auto& x : rs[alg].removed) l += x + " "; sx::note(std::string("removed by ") + ALGS[alg], l + (rs[alg].adjusted ? "| adjusted" : "| " + rs[alg].why)); }
+  sx::note("outcome", rs[0].adjusted ? "adjusted after removing " + std::to_string(rs[0].removed.size()) + " points" : rs[0].why);
+  sx::reached("net-c20");
 }
 
 // ---------------------------------------------------------------------------------------------------
@@ -136,12 +447,61 @@ static std::vector<Spec> linear_family(const sx::Options& opt) {
 
 static void gen_cases(const sx::Options& opt, std::vector<sx::Case>& cases) {
   g_prop = opt.prop;
+  GNU_gama::local::set_gama_language(GNU_gama::local::en);
+  bool th = opt.tier == "thorough";
   std::vector<Spec> fam = linear_family(opt);
-  if (on("C01") || on("C03")) {
-    for (auto& s : fam) for (int alg = 0; alg < 3; alg++) {
-      std::shared_ptr<Spec> sp = std::make_shared<Spec>(s);
-      cases.push_back({"net/" + s.name + "/" + ALGS[alg], "LocalNetwork linear", [sp, alg] { sx::note("network", sp->name); case_c01(*sp, alg); }});
+  auto add = [&](const std::string& name, const std::string& family, std::function<void()> f) { cases.push_back({name, family, f}); };
+  if (on("C01") || on("C03")) for (auto& s : fam) for (int alg = 0; alg < 3; alg++) { auto sp = std::make_shared<Spec>(s);
+      add("net/" + s.name + "/" + ALGS[alg], "LocalNetwork vs exact oracle", [sp, alg] { sx::note("network", sp->name); case_c01(*sp, alg); }); }
+  if (on("C02")) for (auto& s : fam) { auto sp = std::make_shared<Spec>(s); add("net-c02/" + s.name, "LocalNetwork: algorithms agree", [sp] { case_c02(*sp); }); }
+  if (on("C06")) for (auto& s : fam) for (int alg = 0; alg < 3; alg++) for (int mode = 0; mode < 3; mode++) {
+      if (!th && alg != mode % 3 && mode != 1) continue;
+      auto sp = std::make_shared<Spec>(s); add("net-c06/" + s.name + "/" + ALGS[alg] + "/mode" + std::to_string(mode), "consistent observations reproduce the network", [sp, alg, mode] { case_c06(*sp, alg, mode); }); }
+  if (on("C07")) for (auto& s : fam) for (int variant = 1; variant <= 4; variant++) for (int alg = 0; alg < 3; alg++) {
+      if (!th && alg != variant % 3) continue;
+      auto sp = std::make_shared<Spec>(s); add("net-c07/" + s.name + "/" + ALGS[alg] + "/variant" + std::to_string(variant), "equivalent descriptions", [sp, alg, variant] { case_c07(*sp, alg, variant); }); }
+  if (on("C08")) {
+    qla::Rng rng(808 + opt.seed);
+    std::vector<std::pair<int,int>> loop5{{1,2},{2,3},{3,4},{4,5},{5,1},{2,4},{1,3}};
+    for (int cs = 0; cs < 3; cs++) for (int alg = 0; alg < 3; alg++) {
+      { auto sp = std::make_shared<Spec>(levelling("lev5-free/cov" + std::to_string(cs), 5, loop5, "ccccc", rng, cs));
+        add("net-c08/" + sp->name + "/" + ALGS[alg], "datum choice", [sp, alg] { case_c08(*sp, alg, {"ccccc", "caaaa", "aacac", "acccc", "aaaac"}); }); }
+      if (cs < 2) { auto sp = std::make_shared<Spec>(vectors("vec4-free/cov" + std::to_string(cs), 4, {{1,2},{2,3},{3,4},{4,1},{2,4}}, "cccc", rng, cs));
+        add("net-c08/" + sp->name + "/" + ALGS[alg], "datum choice", [sp, alg] { case_c08(*sp, alg, {"cccc", "caaa", "acca", "aaac"}); }); }
     }
+  }
+  if (on("C10")) {
+    qla::Rng rng(1010 + opt.seed);
+    std::vector<std::pair<int,int>> loop5{{1,2},{2,3},{3,4},{4,5},{5,1},{2,4},{1,3}};
+    for (int alg = 0; alg < 3; alg++) {
+      { auto sp = std::make_shared<Spec>(levelling("lev5-diag", 5, loop5, "faaaa", rng, 0, 2)); add("net-c10/diag/" + std::string(ALGS[alg]), "diagonal cov-mat = stdev", [sp, alg] { case_c10_diag(*sp, alg); }); }
+      for (int band = 1; band <= 3; band++) {
+        auto sp = std::make_shared<Spec>(levelling("lev5-band" + std::to_string(band), 5, loop5, "faaaa", rng, band + 1, 1));
+        int n = (int)sp->cl[0].obs.size();
+        for (unsigned mask = 1; mask < (1u << n); mask++) {
+          int bits = __builtin_popcount(mask); if (bits > 3) continue; if (!th && (mask * 2654435761u >> 28) % 4 != (unsigned)alg) continue;
+          add("net-c10/passive/band" + std::to_string(band) + "/" + ALGS[alg] + "/mask" + std::to_string(mask), "passive observations use the covariance sub-matrix", [sp, alg, mask] { case_c10_passive(*sp, alg, 0, mask); });
+        }
+      }
+    }
+    for (int kind = 0; kind < 4; kind++) add("net-c10/reject/kind" + std::to_string(kind), "malformed covariance matrices", [kind] { case_c10_reject(kind); });
+  }
+  if (on("C14")) for (auto& s : fam) { if (s.name.find("fixed") == std::string::npos) continue; size_t nobs = 0; for (auto& c : s.cl) nobs += c.obs.size();
+      for (int alg = 0; alg < 3; alg++) for (size_t t = 0; t < nobs; t += (th ? 1 : 3)) { auto sp = std::make_shared<Spec>(s); int tt = (int)t;
+        add("net-c14/" + s.name + "/" + ALGS[alg] + "/obs" + std::to_string(t), "tol-abs threshold and deletion equivalence", [sp, alg, tt] { case_c14(*sp, alg, tt); }); } }
+  if (on("C20")) {
+    qla::Rng rng(2020 + opt.seed);
+    std::vector<std::pair<int,int>> loop5{{1,2},{2,3},{3,4},{4,5},{5,1},{2,4},{1,3}};
+    std::vector<std::pair<int,int>> two{{1,2},{2,3},{3,1},{4,5},{5,6},{6,4},{4,5}};
+    std::vector<Spec> ill;
+    ill.push_back(levelling("lev5-no-datum", 5, loop5, "aaaaa", rng, 0));
+    ill.push_back(levelling("lev6-two-parts-one-datum", 6, two, "caaaaa", rng, 0));
+    ill.push_back(levelling("lev6-two-parts-fixed-one", 6, two, "faaaaa", rng, 1));
+    ill.push_back(levelling("lev6-two-parts-ok", 6, two, "caacaa", rng, 0));
+    ill.push_back(vectors("vec4-no-datum", 4, {{1,2},{2,3},{3,4},{4,1}}, "aaaa", rng, 0));
+    { Spec s = levelling("lev5-dangling", 5, {{1,2},{2,3},{3,1},{4,5}}, "faaaa", rng, 0); ill.push_back(s); }
+    { Spec s = levelling("lev4-all-fixed", 4, {{1,2},{2,3},{3,4}}, "ffff", rng, 0); ill.push_back(s); }
+    for (auto& s : ill) { auto sp = std::make_shared<Spec>(s); add("net-c20/" + s.name, "ill-posed networks", [sp] { case_c20(*sp); }); }
   }
 }
 
